@@ -13,7 +13,8 @@ from harness import sdrv  # noqa: E402
 VARIANTS = {
     'EHLO': [('EHLO', 1, b'EHLO client.example\r\n')],
     'HELO': [('HELO', 1, b'HELO client.example\r\n')],
-    'MAIL': [('MAIL', 1, b'MAIL FROM:<s{a}@x.example>\r\n')],
+    # (the null reverse-path of bounces is a sender like any other)
+    'MAIL': [('MAIL', 1, b'MAIL FROM:<s{a}@x.example>\r\n'), ('MAIL', 1, b'MAIL FROM:<s{a}@x.example>\r\n'), ('MAIL', 1, b'MAIL FROM:<>\r\n')],
     'RCPT': [('RCPT', 1, b'RCPT TO:<r{a}@y.example>\r\n')],
     'DATA': [('DATA', 1, b'DATA\r\n')],
     'RSET': [('RSET', 1, b'RSET\r\n')],
